@@ -11,7 +11,7 @@ sys.path.insert(0, HERE)
 from vf import common as C
 
 CHECKS = {
-    'C01': 'vf.checks_map', 'C02': 'vf.checks_map', 'C05': 'vf.checks_map', 'C07': 'vf.checks_map', 'C14': 'vf.checks_c14', 'C04': 'vf.checks_sub', 'C10': 'vf.checks_sub', 'C09': 'vf.checks_c09', 'C06': 'vf.checks_c06', 'C20': 'vf.checks_c20', 'C08': 'vf.checks_c08', 'C03': 'vf.checks_view', 'C11': 'vf.checks_view', 'C13': 'vf.checks_view', 'C12': 'vf.checks_c12', 'C16': 'vf.checks_c16', 'C18': 'vf.checks_c18', 'C17': 'vf.checks_c17', 'C19': 'vf.checks_c19', 
+    'C01': 'vf.checks_map', 'C02': 'vf.checks_map', 'C05': 'vf.checks_map', 'C07': 'vf.checks_map', 'C14': 'vf.checks_c14', 'C04': 'vf.checks_sub', 'C10': 'vf.checks_sub', 'C09': 'vf.checks_c09', 'C06': 'vf.checks_c06', 'C20': 'vf.checks_c20', 'C08': 'vf.checks_c08', 'C03': 'vf.checks_view', 'C11': 'vf.checks_view', 'C13': 'vf.checks_view', 'C12': 'vf.checks_c12', 'C16': 'vf.checks_c16', 'C18': 'vf.checks_c18', 'C17': 'vf.checks_c17', 'C19': 'vf.checks_c19', 'C15': 'vf.checks_c15', 
 }
 
 def setup():
